@@ -90,8 +90,18 @@ def run_tokens(dialect, tokens, num):
         expected = [num[a] for a in exp]
     out = dict(code=code, trace=trace, bad=bad, expected=expected,
                exc=(type(exc).__name__ + ': ' + str(exc)[:200]) if exc else None,
+               site=_site(exc) if exc is not None else None,
                ncalls=len(ERRCALLS))
     return out
+
+
+def _site(e):
+    """file:function of the innermost frame of the library (or of sly) the exception passed through"""
+    import traceback
+    for fr in reversed(traceback.extract_tb(e.__traceback__)):
+        if '/mindsdb_sql/' in fr.filename or '/sly/' in fr.filename:
+            return f'{fr.filename.split("/")[-1]}:{fr.name}'
+    return 'unknown'
 
 
 def _raised_in_action(e):
